@@ -724,35 +724,55 @@ func runC12(c *Ctx) {
 		_ = finfo
 		g := p.Func("pkg/core.diamondReady")
 		gb := p.BodyOf(g)
-		var gsw *ast.SwitchStmt
+		// every success return of diamondReady is conditioned on State == DiamondInitialized: as the single name of a
+		// `switch X.State` case, or as a guard atom (if / early-return forms)
+		isInit := func(e ast.Expr) bool {
+			sel, ok := ast.Unparen(e).(*ast.SelectorExpr)
+			return ok && sel.Sel.Name == "DiamondInitialized"
+		}
+		isState := func(e ast.Expr) bool { return strings.HasSuffix(exprString(ast.Unparen(e)), ".State") }
+		ggas := guardedActions(g, g.Decl.Body)
+		okReady := true
+		nSucc := 0
 		ast.Inspect(g.Decl.Body, func(n ast.Node) bool {
-			if s, ok := n.(*ast.SwitchStmt); ok && s.Tag != nil && strings.HasSuffix(exprString(s.Tag), ".State") {
-				gsw = s
+			if _, ok := n.(*ast.FuncLit); ok {
+				return false
+			}
+			r, ok := n.(*ast.ReturnStmt)
+			if !ok || gb.classifyReturn(r) == retFailure {
+				return true
+			}
+			nSucc++
+			guarded := false
+			for x := gb.parent[r]; x != nil && !guarded; x = gb.parent[x] {
+				if cc, ok := x.(*ast.CaseClause); ok {
+					if sw, ok := gb.parent[gb.parent[cc]].(*ast.SwitchStmt); ok && sw.Tag != nil && isState(sw.Tag) {
+						guarded = len(cc.List) == 1 && isInit(cc.List[0])
+						break
+					}
+				}
+			}
+			for _, ga := range ggas {
+				if ga.Node != ast.Node(r) {
+					continue
+				}
+				for _, at := range ga.Atoms {
+					be, ok := ast.Unparen(at.Expr).(*ast.BinaryExpr)
+					if !ok {
+						continue
+					}
+					pair := (isState(be.X) && isInit(be.Y)) || (isState(be.Y) && isInit(be.X))
+					if pair && ((be.Op == token.EQL && !at.Neg) || (be.Op == token.NEQ && at.Neg)) {
+						guarded = true
+					}
+				}
+			}
+			if !guarded {
+				okReady = false
 			}
 			return true
 		})
-		okReady := gsw != nil
-		if gsw != nil {
-			for _, st := range gsw.Body.List {
-				cc := st.(*ast.CaseClause)
-				var names []string
-				for _, e := range cc.List {
-					if sel, ok := ast.Unparen(e).(*ast.SelectorExpr); ok {
-						names = append(names, sel.Sel.Name)
-					}
-				}
-				succ := false
-				ast.Inspect(cc, func(m ast.Node) bool {
-					if r, ok := m.(*ast.ReturnStmt); ok && gb.classifyReturn(r) != retFailure {
-						succ = true
-					}
-					return true
-				})
-				if succ && strings.Join(names, ",") != "DiamondInitialized" {
-					okReady = false
-				}
-			}
-		}
+		okReady = okReady && nSucc > 0
 		c.check(okReady, "state-tables.ready", g.ID, p.Pos(g.Decl.Pos()), "diamondReady succeeds only for DiamondInitialized", "diamondReady returns success for a state other than DiamondInitialized")
 		checkNoSwallow(c, "state-tables.ready", g, func(id string) bool { return id == "pkg/core.GetDiamond" }, nil)
 	}
